@@ -17,7 +17,7 @@ from ..run import hyp_run
 
 ID = 'C03'
 LEVEL = 'exploration'
-BUDGET_S = {'quick': 180, 'thorough': 1800}
+BUDGET_S = {'quick': 300, 'thorough': 1800}
 RULE = ('one generated dependency graph per example (3-25 formula cells, <= 3 sheets); a case = (graph, entry cell); non-trivial = the entry '
         'reaches >= 3 formula cells through at least one cross-sheet or area edge while some workbook cell is not reachable; cyclic '
         'cases (graph + back edge, entry) are counted as non-trivial when the entry reaches the cycle; distinct = distinct (graph, entry)')
